@@ -35,7 +35,8 @@ func TestMain(m *testing.M) {
 			"eviction policies — a key disappears only when the usage reached the limit; only keys of the policy's candidate set disappear (volatile-*: keys that have a deadline); when keys were evicted the usage is back under the limit unless the candidate set is exhausted, and not further than necessary (usage after + size of the largest evicted key ≥ limit, sizes measured on the twin); under LFU no evicted key had been accessed more often than a surviving candidate of the same database; under LRU none more recently (recorded open finding: the LRU heap pops the most recent key first); "+
 			"an evicted key is absent for TYPE/GET/TTL and the eviction bookkeeping (OBJECTFREQ / OBJECTIDLETIME), every surviving key reads exactly as on the twin, and the process survives. A case is (policy, limit, history); non-trivial = the usage reaches the limit at least once; distinct = FNV-64 of the case.",
 		"the in-flight case is journalled before it runs: a crash of the in-process server with frames of the server in the trace is reported as a violation with that case as replay",
-		"LRU recency is stamped with time.Now() by the server, so LRU cases are paced in real time; everything else runs under the virtual clock")
+		"LRU recency is stamped with time.Now() by the server, so LRU cases are paced in real time; everything else runs under the virtual clock",
+		"scenario generators: a volatile key that is accessed and then loses its deadline; volatile keys, a flush, growth; a two-key writer placed one byte under the limit; collection writers that modify a stored value before the write is admitted; presence is probed with PTTL (not an access); an eviction pass that never ends while the server stops answering is a violation")
 	common.Main(m, rec)
 }
 
